@@ -574,11 +574,11 @@ class PixelAperture(Aperture):
                 warnings.simplefilter('ignore', RuntimeWarning)
 
                 values = (data[slc_large] * aper_weights)[pixel_mask]
-                aperture_sums.append(values.sum())
+                aperture_sums.append(self._sum(values))
 
                 if error is not None:
                     variance = (error[slc_large]**2 * aper_weights)[pixel_mask]
-                    aperture_sum_errs.append(np.sqrt(variance.sum()))
+                    aperture_sum_errs.append(np.sqrt(self._sum(variance)))
 
         aperture_sums = np.array(aperture_sums)
         aperture_sum_errs = np.array(aperture_sum_errs)
@@ -589,6 +589,20 @@ class PixelAperture(Aperture):
             aperture_sum_errs <<= unit
 
         return aperture_sums, aperture_sum_errs
+
+    @staticmethod
+    def _sum(values):
+        """
+        Sum the selected pixel values.
+
+        The sum of an empty (or completely masked) selection of a
+        `~numpy.ma.MaskedArray` is ``masked`` (which would become NaN);
+        it is zero as for a plain `~numpy.ndarray`.
+        """
+        total = values.sum()
+        if total is np.ma.masked:
+            total = 0.0
+        return total
 
     @staticmethod
     def _make_annulus_path(patch_inner, patch_outer):
